@@ -921,3 +921,126 @@ rule("C03", "D3.13", "T-WITNESS", floor=6)(d1_16)
 rule("C13", "D13.10", "T-WITNESS", floor=6)(d1_16)
 rule("C03", "D3.14", "T-WITNESS", floor=6)(d4_10)
 rule("C02", "D2.13", "T-WITNESS", floor=8)(d3_11)
+
+
+# ---------------------------------------------------------------------------------------------------------------- StructTag
+def _structtag_witness(ctx):
+    """StructTag's factory prelude and class attributes evaluated on a witness layout; returns (class info, cls witness) or a
+    reason string."""
+    from ..miniinterp import Interp, _Unknown
+
+    CT = "pycomm3.custom_types"
+    tag = ctx.model.cls(f"{CT}:StructTag.StructTag")
+    fac = tag.enclosing
+    mk = lambda name, size: Obj(kind="member", name=name, size=size)  # noqa: E731
+    A, B, H, C = mk("a", 1), mk("b", 4), mk("host", 1), mk("c", 2)
+    env = {fac.args.vararg.arg: ((A, 0), (B, 4), (H, 8), (C, 10))}
+    given = {"bit_members": {"x": (8, 0), "y": (8, 3)}, "private_members": {"host"}, "struct_size": 12}
+    for a in fac.args.kwonlyargs:
+        if a.arg not in given:
+            return tag, f"unexpected factory parameter {a.arg}"
+        env[a.arg] = given[a.arg]
+
+    def hook(call, env_, it):
+        if (call_name(call) or "") == "Struct" and isinstance(call.func, ast.Name):
+            args = []
+            for x in call.args:
+                if isinstance(x, ast.Starred):
+                    args.extend(it.ev(x.value, env_))
+                else:
+                    args.append(it.ev(x, env_))
+            return Obj(kind="struct-class", members=list(args))
+        return UNKNOWN
+
+    it = Interp(ctx, tag.module, hook)
+    try:
+        for st in fac.body:
+            if isinstance(st, ast.ClassDef):
+                break
+            if isinstance(st, ast.Expr) and isinstance(st.value, ast.Constant):
+                continue
+            it._stmt(st, env, 0)
+        attrs = {name: it.ev(expr, env) for name, expr in tag.attrs.items()}
+        base = it.ev(tag.node.bases[0], env)
+    except _Unknown as u:
+        return tag, f"factory prelude not foldable: {u.why}"
+    except Exception as err:  # the prelude fails on the witness layout
+        return tag, f"factory prelude raises {type(err).__name__} on the witness layout"
+    if not (isinstance(base, Obj) and base.__dict__.get("kind") == "struct-class"):
+        return tag, f"the generated class does not derive from the Struct of its members: {base!r}"
+    attrs.setdefault("members", base.members)
+    return tag, (Obj(kind="structtag", **attrs), (A, B, H, C))
+
+
+def _structtag_rule(ctx):
+    """StructTag folded on a witness layout (SINT a @0, DINT b @4, private SINT host @8 with BOOL aliases x = bit 0 and
+    y = bit 3, INT c @10, size 12; member codecs are markers that consume / produce their own width): decode reads exactly
+    `size` bytes, every member at its offset (gaps skipped), BOOL aliases from their host byte, private members left out;
+    encode writes every visible member at its offset into a zeroed image of `size` bytes and sets / clears the alias bits."""
+    tag, w = _structtag_witness(ctx)
+    dec, enc = tag.methods["_decode"], tag.methods["_encode"]
+    if isinstance(w, str):
+        if "not foldable" in w or "unexpected" in w:
+            ctx.undecided(ckey(tag.key, "witness"), tag.node, w)
+        else:
+            ctx.violation(ckey(tag.key, "witness"), tag.node, w)
+        return
+    cls, (A, B, H, C) = w
+    need = sorted({n.attr for m in (dec, enc) for n in ast.walk(m) if isinstance(n, ast.Attribute) and isinstance(n.value, ast.Name) and n.value.id == "cls" and isinstance(n.ctx, ast.Load)} - {"_stream_read", "members", "name"})
+    missing = [a for a in need if a not in cls.__dict__]
+    ctx.check(not missing, ckey(tag.key, "class-attributes"), tag.node, f"the generated class provides {need}", f"StructTag's codec reads cls.{missing} but the generated class does not define it (AttributeError -> DataError on every structure read / write)")
+    if missing:
+        return
+    from ..miniinterp import Stream
+
+    image = bytes([0x11, 0xEE, 0xEE, 0xEE, 0x22, 0x23, 0x24, 0x25, 0b00001000, 0xEE, 0x31, 0x32])
+    outer = Stream(image + b"\x99\x99")
+
+    def dhook(call, env, it):
+        f = call.func
+        if isinstance(f, ast.Attribute) and f.attr == "_stream_read" and isinstance(f.value, ast.Name) and f.value.id == "cls":
+            s_, n_ = it.ev(call.args[0], env), it.ev(call.args[1], env)
+            got = s_.read(n_)
+            if len(got) != n_:
+                raise _Raise("BufferEmptyError")
+            return got
+        if isinstance(f, ast.Attribute) and f.attr == "decode" and isinstance(f.value, ast.Name) and isinstance(env.get(f.value.id), Obj) and env[f.value.id].__dict__.get("kind") == "member":
+            m = env[f.value.id]
+            return ("val", m.name, it.ev(call.args[0], env).read(m.size))
+        return UNKNOWN
+
+    kind, res = run_function(ctx, tag.module, dec, {dec.args.args[0].arg: cls, dec.args.args[1].arg: outer}, call_hook=dhook, deep=False)
+    key = ckey(tag.key + "._decode", "witness")
+    if kind == "unknown":
+        ctx.undecided(key, dec, f"StructTag._decode not foldable: {res}")
+    else:
+        want = {"a": ("val", "a", b"\x11"), "b": ("val", "b", b"\x22\x23\x24\x25"), "c": ("val", "c", b"\x31\x32"), "x": False, "y": True}
+        ctx.check(kind == "return" and res == want and outer.pos == 12, key, dec, "members at offsets 0 / 4 / 10, aliases from byte 8, host left out, 12 bytes consumed",
+                  f"StructTag._decode on the witness image gives {kind} {res!r} after consuming {outer.pos} byte(s); expected {want!r} after 12")
+
+    def ehook(call, env, it):
+        f = call.func
+        if isinstance(f, ast.Attribute) and f.attr == "encode" and isinstance(f.value, ast.Name) and isinstance(env.get(f.value.id), Obj) and env[f.value.id].__dict__.get("kind") == "member":
+            return it.ev(call.args[0], env)
+        return UNKNOWN
+
+    given = {"a": b"\x11", "b": b"\x22\x23\x24\x25", "c": b"\x31\x32", "x": True, "y": False}
+    kind, res = run_function(ctx, tag.module, enc, {enc.args.args[0].arg: cls, enc.args.args[1].arg: dict(given)}, call_hook=ehook, deep=False)
+    key = ckey(tag.key + "._encode", "witness")
+    if kind == "unknown":
+        ctx.undecided(key, enc, f"StructTag._encode not foldable: {res}")
+    else:
+        want = bytes([0x11, 0, 0, 0, 0x22, 0x23, 0x24, 0x25, 0x01, 0, 0x31, 0x32])
+        got = bytes(res) if kind == "return" and isinstance(res, (bytes, bytearray)) else res
+        ctx.check(kind == "return" and got == want, key, enc, f"image {want.hex()}", f"StructTag._encode of {given!r} gives {kind} {got.hex() if isinstance(got, bytes) else got!r}; expected {want.hex()} (host byte written only through its alias bits)")
+    given2 = dict(given, x=False, y=True)
+    kind, res = run_function(ctx, tag.module, enc, {enc.args.args[0].arg: cls, enc.args.args[1].arg: given2}, call_hook=ehook, deep=False)
+    key = ckey(tag.key + "._encode", "witness:other bits")
+    if kind != "unknown":
+        got = bytes(res) if kind == "return" and isinstance(res, (bytes, bytearray)) else res
+        ctx.check(kind == "return" and isinstance(got, bytes) and len(got) == 12 and got[8] == 0x08, key, enc, "x clear, y set -> host byte 0x08", f"StructTag._encode with x=False, y=True gives host byte {got[8] if isinstance(got, bytes) and len(got) > 8 else got!r}")
+
+
+rule("C06", "D6.10", "T-WITNESS", floor=3)(_structtag_rule)
+rule("C07", "D7.8", "T-WITNESS", floor=3)(_structtag_rule)
+rule("C01", "D1.18", "T-WITNESS", floor=3)(_structtag_rule)
